@@ -407,6 +407,7 @@ func main() {
 	for i, r := range active {
 		rowCounts[r.name] += perRow[i]
 	}
+	localEvals := localReassigned(run)
 	covered := []string{}
 	for n := range rowCounts {
 		covered = append(covered, n)
@@ -433,36 +434,85 @@ func main() {
 	run.Assume = []string{
 		"value domains are alphabets: 8/16-bit integers and bool complete; 32/64-bit integers, floats, durations by every single-bit / all-ones-below-bit pattern and complements; complex numbers as a 12x12 grid; strings = every string of <=3 (thorough: <=4) units over 16 byte-units; times = 19 instants x 8 location kinds; slices nil/empty/aliasing sub-slices/all 2- and 3-tuples over 4-5 boundary elements/all single-element slices",
 		"integer delivery is compared by signedness class and decimal value, not by method width (Int32 through AddInt64 is accepted, uint32 through a signed method or a truncated value is not); float/complex width is pinned",
+		"time-valued constructors are also encoded after the program has assigned another zone to time.Local between construction and encoding (the field must have captured its value)",
 		"left out (documentation silent): nil Object/Array marshalers, nil elements in Objects and nil elements in Stringers whose String method does not cope with a nil receiver (a nil pointer whose String copes with it is an ordinary value and is in the alphabet), Stringers or errors whose method panics on a non-nil receiver, values implementing more than one of ObjectMarshaler/ArrayMarshaler/error/Stringer handed to Any (precedence undocumented), StackSkip beyond the stack depth, Fields assembled by hand instead of through a constructor",
 		"typed nil pointers whose Error/String method dereferences the receiver must arrive as \"<nil>\" (CHANGELOG #854, #867)",
 		"Equals: 'equal inputs' means == / element-wise == inputs; fields rebuilt from separately allocated NaN-holding slices are not required to be equal, reflexivity (f.Equals(f)) is required for every field; Equals==false is required when type, key or delivered value differ, except between +0/-0 and NaN-holding values where Go's == and the bit pattern disagree",
 		"the constructor list and Any's case list come from go/parser on " + repoRoot() + "; constructors without a driver row are listed under uncovered_constructors and are NOT checked",
 	}
 	run.Finish(map[string]any{
-		"evaluations":               total.delivered + total.anyEvals + eqTotal,
-		"distinct_nontrivial":       len(total.distinct) - total.trivial + len(ents)*len(ents),
-		"rule":                      "part 1: every case of every driver row (constructor x input alphabet, first two cases under 8 keys, String/Int64/Namespace/Str under every S* key) -> Field.AddTo(spy) -> trace compared with the promised trace; part 2: the same input through zap.Any for every row that answers for a case type of Any's switch (trace vs promise, representation vs typed constructor), plus named types outside the switch -> AddReflected; part 3: Equals on every ordered pair of the Equals alphabet, f.Equals(f), and f vs the field rebuilt from an equal input. distinct = distinct (driver row, input, key, direct|via Any) tuples minus those whose promised trace is empty (Skip, nil error) + ordered pairs of distinct Equals-alphabet fields",
-		"exhaustive":                true,
-		"repo":                      repoRoot(),
-		"constructors_in_source":    len(ctors),
-		"constructor_names":         names,
-		"constructors_covered":      len(covered),
-		"uncovered_constructors":    uncovered,
-		"driver_rows_not_in_source": stale,
-		"any_switch_types":          len(anyTypes),
-		"uncovered_any_types":       uncoveredAny,
-		"delivery_cases":            total.delivered,
-		"any_cases":                 total.anyEvals,
-		"spy_calls":                 total.spyCalls,
-		"trivial_cases":             total.trivial,
-		"equals_alphabet":           len(ents),
-		"equals_calls":              eqTotal,
-		"cases_per_constructor":     rowCounts,
-		"local_zone_in_july":        localName,
-		"sixteen_bit_any_cross":     map[bool]string{true: "complete (65536 values x scalar, pointer, single-element slice)", false: "boundary patterns only"}[thorough],
+		"evaluations":                 total.delivered + total.anyEvals + eqTotal + localEvals,
+		"time_local_reassigned_cases": localEvals,
+		"distinct_nontrivial":         len(total.distinct) - total.trivial + len(ents)*len(ents),
+		"rule":                        "part 1: every case of every driver row (constructor x input alphabet, first two cases under 8 keys, String/Int64/Namespace/Str under every S* key) -> Field.AddTo(spy) -> trace compared with the promised trace; part 2: the same input through zap.Any for every row that answers for a case type of Any's switch (trace vs promise, representation vs typed constructor), plus named types outside the switch -> AddReflected; part 3: Equals on every ordered pair of the Equals alphabet, f.Equals(f), and f vs the field rebuilt from an equal input. distinct = distinct (driver row, input, key, direct|via Any) tuples minus those whose promised trace is empty (Skip, nil error) + ordered pairs of distinct Equals-alphabet fields",
+		"exhaustive":                  true,
+		"repo":                        repoRoot(),
+		"constructors_in_source":      len(ctors),
+		"constructor_names":           names,
+		"constructors_covered":        len(covered),
+		"uncovered_constructors":      uncovered,
+		"driver_rows_not_in_source":   stale,
+		"any_switch_types":            len(anyTypes),
+		"uncovered_any_types":         uncoveredAny,
+		"delivery_cases":              total.delivered,
+		"any_cases":                   total.anyEvals,
+		"spy_calls":                   total.spyCalls,
+		"trivial_cases":               total.trivial,
+		"equals_alphabet":             len(ents),
+		"equals_calls":                eqTotal,
+		"cases_per_constructor":       rowCounts,
+		"local_zone_in_july":          localName,
+		"sixteen_bit_any_cross":       map[bool]string{true: "complete (65536 values x scalar, pointer, single-element slice)", false: "boundary patterns only"}[thorough],
 		"samples": []any{
 			sampleOf("zap.Uint32", 2), sampleOf("zap.Float32", 6), sampleOf("zap.Time", 65), sampleOf("zap.Timep", 0),
 			sampleOf("zap.Int16s", 3), sampleOf("zap.NamedError", 10), sampleOf("zap.Stringer", 3), sampleOf("zap.Any", 7),
 		},
 	})
+}
+
+// localReassigned: a field captures its value when it is BUILT. Between construction and encoding the
+// program assigns another zone to time.Local (legal: it is an exported variable); the time the encoder
+// receives must still carry the zone it was given. Every time-valued constructor, times in time.Local
+// and in other zones, three instants.
+func localReassigned(run *ev.Run) (evals int) {
+	saved := time.Local
+	defer func() { time.Local = saved }()
+	zoneA := time.FixedZone("ZA", 3600)
+	zoneB := time.FixedZone("ZB", -2*3600)
+	type tc struct {
+		name string
+		mk   func(t time.Time) zap.Field
+		want func(t time.Time) []string
+	}
+	one := func(t time.Time) []string { return []string{kv("k", vTime(t))} }
+	ctors := []tc{
+		{"zap.Time", func(t time.Time) zap.Field { return zap.Time("k", t) }, one},
+		{"zap.Timep", func(t time.Time) zap.Field { return zap.Timep("k", &t) }, one},
+		{"zap.Any(time.Time)", func(t time.Time) zap.Field { return zap.Any("k", t) }, one},
+		{"zap.Any(*time.Time)", func(t time.Time) zap.Field { return zap.Any("k", &t) }, one},
+		{"zap.Times", func(t time.Time) zap.Field { return zap.Times("k", []time.Time{t, t.Add(time.Second)}) }, func(t time.Time) []string {
+			return []string{kv("k", vArr("", []string{vTime(t), vTime(t.Add(time.Second))}))}
+		}},
+	}
+	for _, c := range ctors {
+		for _, unix := range []int64{0, 1700000000, -5} {
+			for _, inLocal := range []bool{true, false} {
+				evals++
+				time.Local = zoneA
+				t := time.Unix(unix, 7).In(time.UTC)
+				if inLocal {
+					t = time.Unix(unix, 7) // in time.Local, which is zone ZA at this moment
+				}
+				f := c.mk(t)
+				want := c.want(t)
+				time.Local = zoneB
+				lines, _, pan := observe(f)
+				time.Local = saved
+				if pan != nil || strings.Join(lines, ";") != strings.Join(want, ";") {
+					run.Report("deliver:"+c.name+":time.Local-reassigned-before-encoding", fmt.Sprintf("%s built from %v (time.Local = ZA +01:00 at that moment), encoded after the program set time.Local to ZB -02:00: encoder received %v (panic %v); the value given requires %v", c.name, t, lines, pan, want), map[string]any{"constructor": c.name, "unix": unix, "in_local": inLocal})
+				}
+			}
+		}
+	}
+	return
 }
